@@ -9,7 +9,8 @@ RULE = ("combining frame: exhaustive over all key sequences of length <= 5 (quic
         "observed after every op: rows (sorted), Len, Cap, threshold and every occupied slot (index, key, value) of the hash table; combiner: chunk {1,2,4,8}, spill target 1..6, up to 8 "
         "Combine calls, Reader drained with random destination sizes, spill directories counted; plus combiners fed 200..1000 "
         "rows over 140..500 keys with spill targets 130..1000, so that spilled runs exceed the 128-row merge buffers; the combiner "
-        "over int16/uint16/int32/uint32/int/uint64/string/int8/uint8 keys (typed images of the keys, spread over all bytes); "
+        "over int16/uint16/int32/uint32/int/uint64/string/int8/uint8 keys (typed images of the keys, spread over all bytes), and over a value "
+        "column with a custom frame codec; "
         "non-trivial = a key occurs twice or the table grows")
 TRUST = ["sort.Sort sorts given Frame.Less/Swap (C11)", "sliceio.Spiller stores and returns the frames it is given (C07 codec)"]
 ASSUMPTIONS = ["the combine function is commutative and associative for the spill/merge laws (the harness uses +); the hash "
@@ -87,9 +88,22 @@ def gen_typed(r, n):
         yield "CBT %s %d %d ; %s" % (kind, r.choice([1, 2, 8, 128]), r.choice([1, 3, 6, 20, 1000]), " ; ".join(ops))
 
 
+def gen_codec(r, n):
+    """a value column with a custom frame codec, spilled in several batches (views at non-zero offsets)"""
+    for i in range(n):
+        ops = []
+        nkeys = r.choice([20, 140, 300, 500])
+        for _ in range(r.rng(1, 4)):
+            rows = ["%d:%d" % (r.below(nkeys), r.rng(0, 30)) for _ in range(r.choice([5, 60, 150, 300]))]
+            ops.append("combine " + " ".join(rows))
+        ops.append("reader DEST " + " ".join(str(r.choice([1, 7, 64, 128, 200])) for _ in range(r.rng(1, 3))))
+        yield "CBV %d %d ; %s" % (r.choice([8, 128]), r.choice([3, 20, 130, 256, 300, 1000]), " ; ".join(ops))
+
+
 def gen(r, tier):
     yield from _gen_small(r, tier)
     yield from gen_typed(r, 180 if tier == "quick" else 4000)
+    yield from gen_codec(r, 60 if tier == "quick" else 1500)
     yield from gen_big(r, 60 if tier == "quick" else 1500)
 
 
